@@ -34,6 +34,7 @@ import (
 	"github.com/99designs/gqlgen/graphql/executor"
 	"github.com/99designs/gqlgen/graphql/handler"
 	"github.com/99designs/gqlgen/graphql/handler/extension"
+	"github.com/99designs/gqlgen/graphql/handler/lru"
 	"github.com/99designs/gqlgen/graphql/handler/transport"
 	"github.com/vektah/gqlparser/v2"
 	"github.com/vektah/gqlparser/v2/ast"
@@ -366,8 +367,97 @@ func runCase(rep *ev.Reporter, c *cenv, cid caseID, meta bool) int {
 
 	// (4) gate
 	n += gate(rep, c, cid, p, want, fail, r.Intn(8) == 0)
+	// (5) one text, two variable assignments, one executor with a query cache: the gate decides
+	// every request on its own variables
+	n += sameTextOtherVariables(rep, c, cid, &fs, p, want, fail)
 	return n
 }
+
+// otherVars changes every integer / string / boolean leaf of the variables.
+func otherVars(v any) any {
+	switch x := v.(type) {
+	case map[string]any:
+		o := map[string]any{}
+		for k, e := range x {
+			o[k] = otherVars(e)
+		}
+		return o
+	case []any:
+		o := make([]any, len(x))
+		for i, e := range x {
+			o[i] = otherVars(e)
+		}
+		return o
+	case json.Number:
+		if i, err := x.Int64(); err == nil && i < 1<<30 && i > -(1<<30) {
+			return json.Number(fmt.Sprint(i + 1))
+		}
+		return x
+	case float64:
+		if x == float64(int64(x)) && x < 1<<30 && x > -(1<<30) {
+			return x + 1
+		}
+		return x
+	case bool:
+		return !x
+	}
+	return v
+}
+
+func sameTextOtherVariables(rep *ev.Reporter, c *cenv, cid caseID, fs *FSet, p *prepared, cx1 int,
+	fail func(sig, part, why string, extra any)) int {
+	if len(cid.Vars) == 0 {
+		return 0
+	}
+	vars2, _ := otherVars(decodeVars(cid.Vars)).(map[string]any)
+	p2, errs := prepare(c, cid.Query, cid.OpName, vars2)
+	if errs != nil {
+		return 0
+	}
+	cx2, _ := refEval(c, fs, p2, cid.OpName)
+	if cx2 == cx1 {
+		return 0
+	}
+	if got := complexity.Calculate(context.Background(), c.env.ES, p2.opCtx.Operation, p2.opCtx.Variables); got != cx2 {
+		return 0 // a differential disagreement, reported by the case that owns these variables
+	}
+	lo, hi, vlo, vhi := cx1, cx2, decodeVars(cid.Vars), vars2
+	if lo > hi {
+		lo, hi, vlo, vhi = hi, lo, vhi, vlo
+	}
+	n := 0
+	for _, order := range []string{"cheap-first", "costly-first"} {
+		ex := executor.New(c.env.ES)
+		ex.SetQueryCache(lru.New[*ast.QueryDocument](100))
+		ex.SetRecoverFunc(func(ctx context.Context, r any) error { return fmt.Errorf("PANIC:%v", r) })
+		ex.Use(extension.FixedComplexityLimit(lo))
+		seq := []map[string]any{vlo, vhi, vlo}
+		if order == "costly-first" {
+			seq = []map[string]any{vhi, vlo, vhi}
+		}
+		for si, vv := range seq {
+			costly := len(vv) > 0 && fmt.Sprint(vv) == fmt.Sprint(vhi)
+			run := &univ.Run{Plan: &univ.SeedPlan{Seed: cid.FSet.Seed, MaxList: 2}}
+			ctx := graphql.StartOperationTrace(univ.WithRun(context.Background(), run))
+			_, errs := ex.CreateOperationContext(ctx, &graphql.RawParams{Query: cid.Query, OperationName: cid.OpName, Variables: decodeVars(encodeVars(vv))})
+			rejected := false
+			for _, e := range errs {
+				if errCode(e) == code {
+					rejected = true
+				}
+			}
+			n++
+			rep.Count("gate_same_text_other_variables_requests", 1)
+			if costly != rejected {
+				fail("", "gate-same-text-other-variables", fmt.Sprintf("limit %d, query cache on, request %d of the %s sequence: complexity with these variables is %d, rejected=%v (the other assignment of the same text costs %d)", lo, si+1, order, map[bool]int{true: hi, false: lo}[costly], rejected, map[bool]int{true: lo, false: hi}[costly]), map[string]any{"variables": vv})
+				break
+			}
+		}
+	}
+	return n
+}
+
+func encodeVars(v map[string]any) map[string]any { return v }
 
 func countStats(rep *ev.Reporter, st *evalStats, total int) {
 	rep.Count("ref_fields", int64(st.Fields))
